@@ -230,14 +230,14 @@ PROPERTY = {
         "k <= number of distinct pooled points (otherwise scikit-learn rejects the query); zero-spread permutation distances end the case",
     ],
     "subchecks": [
-        SubCheck("nnsp_pairs", check_pair, strategy=strat_pair, nontrivial=lambda L: "nontrivial" in L, quick=1500, thorough=30000, shards_quick=8),
+        SubCheck("nnsp_pairs", check_pair, strategy=strat_pair, nontrivial=lambda L: "nontrivial" in L, quick=1500, thorough=90000, shards_quick=8),
         SubCheck(
             "nndvi",
             check_nndvi,
             strategy=strat_nndvi,
             nontrivial=lambda L: "nontrivial" in L,
             quick=300,
-            thorough=5000,
+            thorough=15000,
             shards_quick=8,
             describe=lambda c: {"params": c["params"], "batch_sizes": [len(b) for b in c["items"]], "first_batch": c["items"][0][:3]},
         ),
